@@ -20,6 +20,9 @@ pub fn install_panic_hook() {
             "<non-string payload>".to_string()
         };
         let loc = info.location().map(|l| format!("{}:{}", l.file(), l.line())).unwrap_or_default();
+        if std::env::var("SFV_TRACE_PANICS").is_ok() {
+            eprintln!("panic: {} @ {}", msg, loc);
+        }
         LAST_PANIC.with(|p| *p.borrow_mut() = format!("{} @ {}", msg, loc));
     }));
 }
@@ -226,6 +229,10 @@ pub struct Entry {
     /// C17: generate a value, walk it through `Introspect`, run `ncmds` navigation commands:
     /// (direct violations, request, reply, node count)
     pub intro: fn(&str, &mut Rng, usize, usize) -> (Vec<String>, String, String, usize),
+    /// C08: one value through instrumented writers/readers, all containers: output lines
+    pub iofault: fn(&str, &mut Rng, usize, u32, usize, bool) -> Vec<String>,
+    /// C14: one value saved with `save_encrypted_file`, then mutated copies through `load_encrypted_file`
+    pub encfile: fn(&str, &mut Rng, usize, u32, bool, bool) -> Vec<String>,
 }
 
 impl Entry {
@@ -279,6 +286,8 @@ pub fn entry<T: ZooVal + Serialize + Deserialize + Packed + WithSchema + Introsp
         schema_bytes: schema_bytes::<T>,
         bulk: bulk_check::<T>,
         intro: intro_impl::<T>,
+        iofault: crate::iofault::iofault_case::<T>,
+        encfile: crate::crypt::enc_case::<T>,
     }
 }
 
@@ -305,6 +314,8 @@ pub fn entry_ni<T: ZooVal + Serialize + Deserialize + Packed + WithSchema + 'sta
         schema_bytes: schema_bytes::<T>,
         bulk: bulk_check::<T>,
         intro: |_, _, _, _| (Vec::new(), String::new(), String::new(), 0),
+        iofault: crate::iofault::iofault_case::<T>,
+        encfile: crate::crypt::enc_case::<T>,
     }
 }
 
